@@ -162,6 +162,14 @@ add("C13", "exploration", "DESIGN.md §2 C13",
     "lenient html.parser tokenisation stands for what a browser/WML client would parse; payload fragments are a "
     "fixed vocabulary combined by the generator")
 
+add("C16", "exploration", "DESIGN.md §2 C16",
+    "Differential testing: Hypothesis tree specs written both as a ZIP (member order, explicit/implicit directories, "
+    "UTF-8/CP437 names, symlink members) and as the extracted tree; oracle = byte equality of replies modulo prefix and "
+    "timestamps; second mode: real-file-only members must be served as own bytes under the audit monitor and two cwds",
+    "1.6k (quick) / 30k (thorough) trees, every object, directory and a few missing selectors requested in both twins "
+    "through 2-3 of 7 protocol forms (tens of thousands of request pairs per quick run). Sampled.",
+    "timestamps are removed, the archive's own display name rewritten; CPython audit events stand for opens/execs")
+
 NOT_APPLICABLE = []
 
 
